@@ -64,7 +64,7 @@ ORDERS = ("ft", "tf")  # frequency first (the layout of the repository's docs) /
 
 OPT_AXES = [
     Axis("cfg", ("A", "B", "C", "D")),
-    Axis("values", ("list", "scalar", "tuple", "omit", "short", "long")),
+    Axis("values", ("list", "scalar", "tuple", "omit", "short", "long", "repeat")),
     Axis("fill", (0, -1)),
     Axis("dtype", ("float32", "int16")),
     Axis("contents", ("g1", "g2")),
@@ -199,8 +199,8 @@ def list_cases(block):
     nt, opt, maxlen = block["nt"], block["opt"], block["maxlen"]
     for order in block["orders"]:
         for nf in block["nfs"]:
-            P = pool(nt, nf)
-            for n in range(0, maxlen + 1):
+            P = pool(nt, nf)[:block.get("pool_limit")]
+            for n in range(block.get("minlen", 0), maxlen + 1):
                 if opt["values"] == "short" and n == 0:
                     continue
                 for combo in itertools.product(range(len(P)), repeat=n):
@@ -226,6 +226,11 @@ def blocks(tier):
             for nt in range(1, m + 1):
                 out.append({"sp": "list", "tier": tier, "opt": opt, "nt": nt, "nfs": list(range(1, m + 1)),
                             "orders": list(ORDERS), "maxlen": 2})
+        # lists of exactly three geometries with interleaved repeated values (a, b, a) over the first six pool members
+        rep = dict(next(d for j, d in deviations(OPT_AXES, 0)), values="repeat")
+        for nt in (2, 3):
+            out.append({"sp": "list", "tier": tier, "opt": rep, "nt": nt, "nfs": [2, 3], "orders": list(ORDERS),
+                        "minlen": 3, "maxlen": 3, "pool_limit": 6})
     else:
         for opt in opt_configs(k_max=1):
             for nt in range(1, 5):
@@ -361,6 +366,10 @@ def values_of(mode, n):
         return SCALAR_VALUE, [SCALAR_VALUE] * n
     if mode == "omit":
         return None, [1] * n
+    if mode == "repeat":
+        # interleaved repeat a, b, a, ...: burning geometries grouped by value would lose the overwrite order
+        vals = [LIST_VALUES[i % 2] for i in range(n)]
+        return vals, vals
     if mode == "short":
         return LIST_VALUES[:n - 1], None
     if mode == "long":
